@@ -394,7 +394,10 @@ fn basic_pieces(pattern: &str, regex_type: RegexType) -> Vec<BasicPiece<'_>> {
 }
 
 /// The pattern with the operators the engine reads differently written the way
-/// it reads them: in grep syntax a "\\{" with nothing to repeat is a brace.
+/// it reads them: in grep syntax a "\\{" with nothing to repeat is a brace; in
+/// posix-basic "\\+" and "\\?" behind something to repeat are the intervals
+/// "\\{1,\\}" and "\\{0,1\\}" (GNU's definition of the syntax; the engine's has no
+/// such operators).
 fn spell_basic_operators(pattern: &str, regex_type: RegexType) -> String {
     if !matches!(regex_type, RegexType::Grep | RegexType::PosixBasic) {
         return pattern.to_owned();
@@ -405,6 +408,8 @@ fn spell_basic_operators(pattern: &str, regex_type: RegexType) -> String {
         .map(|piece| match piece {
             BasicPiece::BraceAtStart if !strict => "{",
             BasicPiece::BraceAtStart => "\\{",
+            BasicPiece::Repeat("\\+") if strict => "\\{1,\\}",
+            BasicPiece::Repeat("\\?") if strict => "\\{0,1\\}",
             BasicPiece::Repeat(text) | BasicPiece::Other(text) => text,
         })
         .collect()
